@@ -247,6 +247,76 @@ func genC16(g *gen) {
 	g.line("Definition gen_exit_store_then_count_unconditional : bool := %s.", coqBool(storeThenAdd("internal/exit/handler.go")))
 	g.line("Definition gen_forward_store_then_count_unconditional : bool := %s.", coqBool(storeThenAdd("internal/forward/handler.go")))
 
+	// every handler that dispatches a frame by its stream id: the relay table
+	// (keyed by (peer, id)) is consulted before any local endpoint (keyed by the
+	// bare id), and the relay branch returns
+	relayMarks := []string{"Relay.LookupBoth(", "Relay.PopMatchingPeer(", "Relay.LookupDownstreamFrom(", "Relay.PopDownstreamFromPeer("}
+	localMarks := []string{"a.exitHandler.", "a.forwardHandler.", "a.udpHandler.", "a.icmpHandler.", "a.streamMgr.", "a.shellHandler.",
+		"a.handleShellClient", "a.getFileTransferStream(", "a.udpIngressByLocalStream", "a.icmpIngressByStream", "a.icmpWSSessionByStream", "a.handleFileTransferStreamData("}
+	handlers := []struct{ file, name string }{
+		{"internal/agent/agent.go", "handleStreamOpenAck"}, {"internal/agent/agent.go", "handleStreamOpenErr"},
+		{"internal/agent/agent.go", "handleStreamData"}, {"internal/agent/agent.go", "handleStreamClose"}, {"internal/agent/agent.go", "handleStreamReset"},
+		{"internal/agent/udp.go", "handleUDPOpenAck"}, {"internal/agent/udp.go", "handleUDPOpenErr"},
+		{"internal/agent/udp.go", "handleUDPDatagram"}, {"internal/agent/udp.go", "handleUDPClose"},
+		{"internal/agent/icmp.go", "handleICMPOpenAck"}, {"internal/agent/icmp.go", "handleICMPOpenErr"},
+		{"internal/agent/icmp.go", "handleICMPEcho"}, {"internal/agent/icmp.go", "handleICMPClose"},
+	}
+	containsAny := func(t string, marks []string) bool {
+		for _, m := range marks {
+			if strings.Contains(t, m) {
+				return true
+			}
+		}
+		return false
+	}
+	// does every path through the statement end in a return? (if/else chains and blocks)
+	var endsInReturn func(st ast.Stmt) bool
+	endsInReturn = func(st ast.Stmt) bool {
+		switch x := st.(type) {
+		case *ast.ReturnStmt:
+			return true
+		case *ast.BlockStmt:
+			return len(x.List) > 0 && endsInReturn(x.List[len(x.List)-1])
+		case *ast.IfStmt:
+			return endsInReturn(x.Body) // the branch taken when the relay matched
+		}
+		return false
+	}
+	for _, h := range handlers {
+		fd := findFunc(parseFile(h.file), "Agent", h.name)
+		firstRelay, firstLocal := -1, -1
+		relayReturns := true
+		if fd != nil && fd.Body != nil {
+			for i, st := range fd.Body.List {
+				t := src(st)
+				isRelay := containsAny(t, relayMarks)
+				if isRelay && firstRelay < 0 {
+					firstRelay = i
+				}
+				if isRelay {
+					// the statements that act on a relay match are the if-statements mentioning the looked-up entry
+					if ifs, ok := st.(*ast.IfStmt); ok && !endsInReturn(ifs) {
+						relayReturns = false
+					}
+				} else if ifs, ok := st.(*ast.IfStmt); ok && (strings.Contains(src(ifs.Cond), "relayUp") || strings.Contains(src(ifs.Cond), "relayDown") ||
+					strings.Contains(src(ifs.Cond), "upRelay") || strings.Contains(src(ifs.Cond), "downRelay")) {
+					if !endsInReturn(ifs) {
+						relayReturns = false
+					}
+				}
+				if !isRelay && containsAny(t, localMarks) && firstLocal < 0 {
+					firstLocal = i
+				}
+			}
+		}
+		ok := firstRelay >= 0 && (firstLocal < 0 || firstRelay < firstLocal)
+		if !ok {
+			g.note("%s: relay lookup at statement %d, first local endpoint at statement %d", h.name, firstRelay, firstLocal)
+		}
+		g.line("Definition gen_relay_first_%s : bool := %s.", h.name, coqBool(ok))
+		g.line("Definition gen_relay_match_returns_%s : bool := %s.", h.name, coqBool(firstRelay >= 0 && relayReturns))
+	}
+
 	// handleStreamData: order in which the local endpoints are tried after the relay lookup
 	// codes: 1 relay, 2 exit, 3 forward, 4 file transfer, 5 shell server, 6 shell client, 7 stream manager
 	var order []string
